@@ -48,6 +48,12 @@ def write_case(d, c):
     if c.get("rel_xml"):
         with open(os.path.join(d, "rel.xml"), "w", encoding="utf-8") as f:
             f.write(c["rel_xml"])
+    op = os.path.join(d, "opts.txt")
+    if c.get("opts"):
+        with open(op, "w") as f:
+            f.write("".join("%s %s\n" % (k, v) for k, v in c["opts"]))
+    elif os.path.exists(op):
+        os.unlink(op)
     pp = os.path.join(d, "params.txt")
     if c.get("params"):
         with open(pp, "w") as f:
@@ -124,7 +130,11 @@ def run_cases_robust(harness, items, crashes):
     return res
 
 
-def run_cli(xalan, d, params=()):
+CLI_OPT = {"indent": lambda v: ["-i", str(v)], "encoding": lambda v: ["-e", str(v)], "noescape": lambda v: ["-u"],
+           "omitmeta": lambda v: ["-m"], "validate": lambda v: ["-v"]}
+
+
+def run_cli(xalan, d, params=(), opts=()):
     """the command-line program: file/stdin source x file/stdin/PI stylesheet x -o file / stdout"""
     res = []
     crashed = []
@@ -135,6 +145,8 @@ def run_cli(xalan, d, params=()):
             os.unlink(outfile)
         try:
             pargs = []
+            for k, v in opts:
+                pargs += CLI_OPT[k](v)      # the command line's own way of setting the option
             for k, v in params:
                 pargs += ["-p", k, v]
             p = subprocess.run([xalan] + pargs + args, stdin=open(stdin, "rb") if stdin else subprocess.DEVNULL,
@@ -273,7 +285,7 @@ def problems_of(harness, xalan, d, c):
     crashes = {}
     blocks = run_cases_robust(harness, [(d, c)], crashes)
     rows, tdig, notes = parse_block(blocks.get(d, []))
-    crows, ccr = run_cli(xalan, d, c.get("params") or ())
+    crows, ccr = run_cli(xalan, d, c.get("params") or (), c.get("opts") or ())
     probs, _ = decide(rows + crows, tdig, c["mode"], c.get("notree", False), c.get("needbase", False))
     for combo, crc, err in crashes.get(d, []) + ccr:
         probs.append(("crash", "died", [combo]))
@@ -416,6 +428,33 @@ def src_info_corpus(g, d, which="src-info"):
             "needbase": True, "rel_xml": '<?xml version="1.0"?>\n<rel>R-corpus</rel>\n', "pi": "base"}
 
 
+def opts_corpus(g, d_of):
+    """per-call options at their boundary values, through the C++ setters and the command line's flags (every seed)"""
+    from vlib.common import Rng
+    xsl_plain = ('<?xml version="1.0"?>\n<xsl:stylesheet version="1.0" xmlns:xsl="http://www.w3.org/1999/XSL/Transform">'
+                 '<xsl:template match="/"><o><p><q a="1">t\u00e9</q><q/></p><xsl:copy-of select="/*/*[1]"/></o></xsl:template></xsl:stylesheet>\n')
+    xsl_html = ('<?xml version="1.0"?>\n<xsl:stylesheet version="1.0" xmlns:xsl="http://www.w3.org/1999/XSL/Transform"><xsl:output method="html"/>'
+                '<xsl:template match="/"><html><head><title>t</title></head><body><a href="x y\u00e9.html?a=b c">l</a></body></html></xsl:template></xsl:stylesheet>\n')
+    out = []
+    for k, (opts, xsl) in enumerate([([("indent", 0)], xsl_plain), ([("indent", 1)], xsl_plain), ([("indent", 2)], xsl_plain),
+                                     ([("encoding", "ISO-8859-1")], xsl_plain), ([("encoding", "US-ASCII"), ("indent", 0)], xsl_plain),
+                                     ([("noescape", "")], xsl_html), ([("omitmeta", "")], xsl_html),
+                                     ([("noescape", ""), ("omitmeta", ""), ("indent", 0)], xsl_html)]):
+        d = d_of("o%d" % k)
+        out.append((d, {"xml": '<?xml version="1.0"?>\n' + g.stylesheet_pi("base", Rng(1), d) + "<doc><a>1<b>2</b></a><c/></doc>",
+                        "xsl": xsl, "mode": "bytes", "cls": "corpus-opts", "probes": [], "nodom": False, "opts": opts, "pi": "base"}))
+    # validation on: a valid document whose indentation is ignorable white space, observed with node counts
+    d = d_of("v0")
+    xml = g.dtd_valid_doc(Rng(5), d, g.stylesheet_pi("base", Rng(1), d))
+    xslv = ('<?xml version="1.0"?>\n<xsl:stylesheet version="1.0" xmlns:xsl="http://www.w3.org/1999/XSL/Transform">'
+            '<xsl:template match="/"><o t="{count(//text())}" w="{count(//text()[not(normalize-space())])}" n="{count(//node())}" k="{count(//@k)}">'
+            '<xsl:for-each select="//*"><n t="{name()}" c="{count(text())}" p="{count(preceding-sibling::node())}" s="{string-length(.)}"/></xsl:for-each>'
+            '</o></xsl:template></xsl:stylesheet>\n')
+    out.append((d, {"xml": xml, "xsl": xslv, "mode": "xml", "cls": "corpus-validate", "probes": ["ws-count"], "nodom": False,
+                    "opts": [("validate", "")], "pi": "base"}))
+    return out
+
+
 def run_forms(ctx, g, r):
     ctx.build("hooks")
     harness = common.build_harness("c05_forms", ["c05_forms.cpp"], flavor="hooks")
@@ -434,6 +473,7 @@ def run_forms(ctx, g, r):
         c = dict(c)
         c["xml"] = c["xml"].replace("@PI@", g.stylesheet_pi(c["pivar"], Rng(k + 1), d))
         cases.append((d, c))
+    cases.extend(opts_corpus(g, lambda n: os.path.join(wd, n)))
     d = os.path.join(wd, "s0")
     cases.append((d, src_info_corpus(g, d)))
     d = os.path.join(wd, "s1")
@@ -457,7 +497,7 @@ def run_forms(ctx, g, r):
     cli = {}
     cli_crashes = {}
     for d, c in cases:
-        cli[d], cli_crashes[d] = run_cli(xalan, d, c.get("params") or ())
+        cli[d], cli_crashes[d] = run_cli(xalan, d, c.get("params") or (), c.get("opts") or ())
     [t.join() for t in th]
     for d, cs in cli_crashes.items():
         if cs:
@@ -493,13 +533,13 @@ def run_forms(ctx, g, r):
             agree_cases += 1
         shrunk = {}
         for kind, desc, forms in probs:
-            key = "forms.%s[%s]: cls=%s mode=%s out=%s nonbmp=%d pi=%s probes=%s" % (kind, ",".join(forms)[:400], c["cls"], c["mode"], c.get("out", "-"),
-                                                                                  1 if "\U0001f600" in c["xml"] else 0, c.get("pi", "base"),
-                                                                                  "+".join(c.get("probes", [])))
+            key = "forms.%s[%s]: cls=%s mode=%s out=%s nonbmp=%d pi=%s opts=%s probes=%s" % (
+                kind, ",".join(forms)[:400], c["cls"], c["mode"], c.get("out", "-"), 1 if "\U0001f600" in c["xml"] else 0,
+                c.get("pi", "base"), ",".join("%s%s" % (k, v) for k, v in (c.get("opts") or [])) or "-", "+".join(c.get("probes", [])))
             if ctx.fail(key, desc + " -- forms: " + ", ".join(forms)[:600], {"xml": c["xml"], "xsl": c["xsl"], "mode": c["mode"], "nodom": c.get("nodom", False), "dir": d, "out": c.get("out", "-"),
                                                                   "params": c.get("params"), "notree": c.get("notree", False),
                                                                   "pi": c.get("pi"), "other_xsl": c.get("other_xsl"),
-                                                                  "needbase": c.get("needbase", False), "rel_xml": c.get("rel_xml")}) == "new" and len(shrunk) < 1 and len(ctx.failures) <= 3:
+                                                                  "needbase": c.get("needbase", False), "rel_xml": c.get("rel_xml"), "opts": c.get("opts")}) == "new" and len(shrunk) < 1 and len(ctx.failures) <= 3:
                 # an unlisted failure: shrink the source document first (same kind of disagreement must persist)
                 small = shrink_case(harness, xalan, d, c, kind)
                 shrunk[kind] = small
@@ -522,7 +562,7 @@ def replay_forms(ctx, inp):
     write_case(d, c)
     bl, rc, err = run_harness(harness, [harness_line(d, c)], verbose=True)
     rows, tdig, notes = parse_block(bl[0] if bl else [])
-    crows, ccr = run_cli(xalan, d, c.get("params") or ())
+    crows, ccr = run_cli(xalan, d, c.get("params") or (), c.get("opts") or ())
     rows += crows
     probs, ref = decide(rows, tdig, c["mode"], c.get("notree", False), c.get("needbase", False))
     for x in ccr:
